@@ -893,7 +893,19 @@ pub fn parse_query(iter: &mut Iter<'_>) -> Query {
             };
             let right = match iter.peek().cloned().unwrap() {
                 Token::Eof => Conversion::None,
-                Token::Degree(deg) => Conversion::Degree(deg),
+                Token::Degree(deg) => {
+                    // A temperature scale is a conversion target only on its
+                    // own. Followed by anything else it is part of a compound
+                    // expression, which is refused when it is evaluated.
+                    let mut lookahead = iter.clone();
+                    lookahead.next();
+                    match lookahead.peek().cloned().unwrap() {
+                        Token::Eof | Token::Newline | Token::Comment(_) => {
+                            Conversion::Degree(deg)
+                        }
+                        _ => Conversion::Expr(parse_eq(iter)),
+                    }
+                }
                 Token::Plus | Token::Minus => {
                     let mut old = iter.clone();
                     if let Some(off) = parse_offset(iter) {
